@@ -90,7 +90,7 @@ def widen_image(rng, img, t):
         elif k == "size":
             img["size"] = rr([x for x in W_INTS if x != 0])
         elif k == "disc":                                     # decoupled: count below number, 1 of 3, zero, negative
-            img["disc_number"], img["disc_count"] = rr([(1, 3), (3, 1), (0, 0), (10, 12), (-1, 1), (2, 2), (10 ** 7, 1), (1, 0)])
+            img["disc_number"], img["disc_count"] = rr([(1, 3), (3, 1), (0, 0), (10, 12), (-1, 1), (2, 2), (10 ** 7, 1), (1, 0), (2 ** 53 + 1, 2 ** 63 - 1), (2 ** 64 + 3, 2 ** 53 + 1), (1, 2 ** 60 + 1)])
         elif k == "arch":
             img["arch"] = rr(W_ARCH_ATTR)
         elif k == "typeformat":                                # type and format are validated independently: decouple them
